@@ -1,5 +1,6 @@
 import WebpVerif.Spec.Lossless
 import WebpVerif.Model.Util
+import WebpVerif.Model.ColorIndex
 namespace DrvLossless
 open Util
 
@@ -27,6 +28,13 @@ def handle (args : List String) : Option String :=
         | "subgreen" => VP8L.inverseSubGreen (toArgb im)
         | _ => VP8L.inverseIndexing (toArgb d) w h (toArgb im)
       some (toHex (VP8L.toRgba out))
+  | ["cidx", w, h, table, img] => do
+      -- the in-place model of apply_color_indexing_transform on the whole w*h buffer
+      let w ← w.toNat?; let h ← h.toNat?
+      let t ← parseHex table; let im ← parseHex img
+      let toArgb := fun (bs : Array Nat) => (List.range (bs.size / 4)).toArray.map fun i =>
+        VP8L.mk bs[4*i+3]! bs[4*i]! bs[4*i+1]! bs[4*i+2]!
+      some (toHex (VP8L.toRgba (CIdx.apply (toArgb t) (t.size / 4) w h (toArgb im))))
   | _ => none
 
 end DrvLossless
